@@ -77,7 +77,7 @@ package haproxy
 // an endpoint is reported as disabled/enabled only if the exchange succeeded
 // and every non-empty answer is an accepted one
 //@ func (*dynUpdater).execDisableEndpoint
-//@   props C02
+//@   props C02 C12
 //@   ensures once:   calls(ExecCmd) == 1
 //@   ensures ok:     result ==> last(ExecCmd).1 == nil && alltrue(RespOK)
 //@   loop 1 invariant seen: 0 <= $idx(1) && alltrue(RespOK) && calls(ExecCmd) == 1 && last(ExecCmd).1 == nil
@@ -211,4 +211,38 @@ package haproxy
 //@   props C03
 //@   at call AddHostnamePathMapping#2 assert https-needs-tls: host.HasTLS() && !host.SSLPassthrough() && $arg1 == host.Hostname && $arg3 == path.Backend.ID
 //@   at call AddHostnamePathMapping#3 assert http-own-host:   $arg1 == host.Hostname && $arg2 == path
+//@ end
+
+// ---------------------------------------------------------------------------
+// C02 — an endpoint pair is accepted without reload only if the exchange
+// succeeded and neither side carries a blue/green label (use-server rules live
+// in the configuration file only)
+//@ count EnableEP = (*dynUpdater).execEnableEndpoint
+//@ func (*dynUpdater).checkEndpointPair
+//@   props C02
+//@   ensures labels: result && calls(EnableEP) > 0 ==> last(EnableEP) && pair.old.Label == "" && pair.cur.Label == ""
+//@   ensures same:   result && calls(EnableEP) == 0 ==> calls(DeepEq) == 1 && last(DeepEq)
+//@ end
+
+// C02 — the socket used for dynamic updates is not persistent: after a reload
+// the commands must reach the new worker, never the connection of the old one
+//@ func (*connections).DynUpdate
+//@   props C02
+//@   at call NewSocket#1 assert fresh-conn: $arg0 == c.adminSock && !$arg1
+//@ end
+
+// ---------------------------------------------------------------------------
+// C12 — a reload of an external haproxy is reported as successful only if the
+// master has workers and counted no failed reload
+//@ count Procs = socket.HAProxyProcs
+//@ func (*instance).waitWorker
+//@   props C12
+//@   ensures ok: result == nil ==> calls(Procs) == 1 && last(Procs).1 == nil && len(last(Procs).0.Workers) > 0 && last(Procs).0.Master.Failed <= 0
+//@ end
+
+// C03 — strict-host: a host gets the catch-all entry unless it declares a
+// `begin` root path itself (an exact or prefix "/" does not catch /other)
+//@ func (*config).SyncConfig
+//@   props C03
+//@   at call FindPath#1 assert begin-root: $arg1 == "/" && len($arg2) == 1 && $arg2[0] == hatypes.MatchBegin
 //@ end
